@@ -184,7 +184,7 @@ structure Encoder where
   cell   : Option Ver      -- `extension.version`, shared with every nested Encoder made by `Struct`
   buf    : List Item
   opened : Nat             -- structures begun and never ended (only after an aborted call)
-  closed : Bool            -- xmlWriter: `xml.Encoder.Close()` was called and the encoder not replaced
+  closed : Bool            -- OLD xmlWriter only: `xml.Encoder.Close()` was called and the encoder not replaced
   deriving Repr, Inhabited
 
 /-- `NewTTLVEncoder()` / `NewXMLEncoder()` / `NewJSONEncoder()` / `NewTextEncoder()`. -/
@@ -221,28 +221,44 @@ def encodeOp (S : Schema) (st : Encoder) (m : Msg) (junk : Junk) : Encoder × Bo
 
 /-- `enc.Clear()`: `enc.extension.version = nil; enc.w.Clear()`.
     ttlvWriter: `buf = buf[:0]`; jsonWriter / textWriter: `buf.Reset()`;
-    xmlWriter: `panicOnErr(w.Close()); buf.Reset(); w = xml.NewEncoder(buf)` — `Close` reports unclosed
-    elements as an error AFTER marking the encoder closed, and returns nil on an encoder already closed. -/
-def clearOp (b : Backend) (st : Encoder) : Encoder × Bool :=
-  match b with
-  | .xml =>
-    if st.closed then (fresh, true)
-    else if st.opened > 0 then ({ st with cell := none, closed := true }, false)
-    else (fresh, true)
-  | _ => (fresh, true)
+    xmlWriter (since /repo 55f108f): `buf.Reset(); w = xml.NewEncoder(buf); w.Indent(…)` — the previous
+    `xml.Encoder` is dropped, whatever elements an aborted call left open in it.
+    Every writer ends up in the state of a new one. -/
+def clearOp (_b : Backend) (_st : Encoder) : Encoder × Bool := (fresh, true)
 
-def stepOp (S : Schema) (b : Backend) (st : Encoder) : Op → Encoder × Bool
+/-- The OLD `xmlWriter.Clear` (before 55f108f), kept to document what the fix repaired:
+    `panicOnErr(w.Close()); buf.Reset(); w = xml.NewEncoder(buf)` — `Close` reports unclosed elements as an
+    error AFTER marking the encoder closed (so `Clear` panicked and the encoder stayed closed), and returns
+    nil on an encoder already closed. -/
+def oldXmlClearOp (st : Encoder) : Encoder × Bool :=
+  if st.closed then (fresh, true)
+  else if st.opened > 0 then ({ st with cell := none, closed := true }, false)
+  else (fresh, true)
+
+/-- one call, for a given implementation `clr` of `Clear`. -/
+def stepOpWith (clr : Encoder → Encoder × Bool) (S : Schema) (st : Encoder) : Op → Encoder × Bool
   | .encode m junk => encodeOp S st m junk
-  | .clear => clearOp b st
+  | .clear => clr st
   | .bytes => (st, true)               -- `Bytes()` (xml: `Flush`) changes nothing observable
 
 /-- run a history; the flags of the calls in order (true = returned normally). -/
-def runOps (S : Schema) (b : Backend) : Encoder → List Op → Encoder × List Bool
+def runOpsWith (clr : Encoder → Encoder × Bool) (S : Schema) : Encoder → List Op → Encoder × List Bool
   | st, [] => (st, [])
   | st, op :: ops =>
-    let r := stepOp S b st op
-    let r' := runOps S b r.1 ops
+    let r := stepOpWith clr S st op
+    let r' := runOpsWith clr S r.1 ops
     (r'.1, r.2 :: r'.2)
+
+/-- the library as it is: back end `b`. -/
+def stepOp (S : Schema) (b : Backend) (st : Encoder) (op : Op) : Encoder × Bool :=
+  stepOpWith (clearOp b) S st op
+
+def runOps (S : Schema) (b : Backend) (st : Encoder) (ops : List Op) : Encoder × List Bool :=
+  runOpsWith (clearOp b) S st ops
+
+/-- the XML encoder with the old `Clear`. -/
+def runOpsOldXml (S : Schema) (st : Encoder) (ops : List Op) : Encoder × List Bool :=
+  runOpsWith oldXmlClearOp S st ops
 
 /-- `enc.Bytes()` of the binary encoder. -/
 def Encoder.bytes (st : Encoder) : Bytes := encList st.buf
